@@ -64,40 +64,44 @@ G2_NoStructError(g, ln) ==
       \A i \in DOMAIN ln.sent :
         (ln.sent[i].m.k = "vote" /\ ln.sent[i].res = "err") => ln.sent[i].why \notin {"malformed", "invalid"}
 
-(* G3: BlockSeen(b) only if an accepted config with activation in (last reported, b] names the
-   keyper as a member (then and only then the report can make shuttermint start something: the
-   app counts a report r for a config iff r >= activation); reports never decrease.
-   Returns [bad, known]: names of failed clauses; a failure explained by a listed known finding
-   goes to known with the finding's tag.
-   GOV2: sendNewBlockSeen counts configs with lastSeen <= activation < b, so a config that
-   activates exactly AT the last reported block triggers a second, useless report. *)
+(* G3: BlockSeen(b) only if an accepted config with activation in [last reported, b] names the
+   keyper as a member; reports never decrease.  (Shuttermint counts a report r for a config iff
+   r >= activation.  The window is closed at its lower end because the code's own window is
+   last_block_seen <= activation < b: a config that activates exactly AT the last reported block
+   is reported once more.  That second report cannot start anything; it is returned as the
+   OBSERVATION "G3_DuplicateReport", not as a failure.)
+   Returns [bad, obs]. *)
 RECURSIVE G3Fold(_, _, _, _)
 G3Fold(a, cfgs, rep, seens) ==
-    IF seens = <<>> THEN [bad |-> {}, known |-> {}]
+    IF seens = <<>> THEN [bad |-> {}, obs |-> {}]
     ELSE LET b == Head(seens).b
-             just == \E i \in DOMAIN cfgs : IsMember(cfgs[i], a) /\ rep < cfgs[i].act /\ cfgs[i].act <= b
-             gov2 == \E i \in DOMAIN cfgs : IsMember(cfgs[i], a) /\ rep = cfgs[i].act /\ cfgs[i].act < b
+             just == \E i \in DOMAIN cfgs : IsMember(cfgs[i], a) /\ rep <= cfgs[i].act /\ cfgs[i].act <= b
+             news == \E i \in DOMAIN cfgs : IsMember(cfgs[i], a) /\ rep < cfgs[i].act /\ cfgs[i].act <= b
              rest == G3Fold(a, cfgs, IF b > rep THEN b ELSE rep, Tail(seens))
          IN [bad |-> rest.bad \cup (IF b >= rep THEN {} ELSE {"G3_Monotone"})
-                              \cup (IF just \/ gov2 THEN {} ELSE {"G3_Justified"}),
-             known |-> rest.known \cup (IF ~just /\ gov2 THEN {"G3_Justified@GOV2"} ELSE {})]
+                              \cup (IF just THEN {} ELSE {"G3_Justified"}),
+             obs |-> rest.obs \cup (IF just /\ ~news THEN {"G3_DuplicateReport"} ELSE {})]
 G3(g, ln) == IF ln.k = "iter" THEN G3Fold(ln.a, KnownCfgs(ln), g.rep[ln.a], NewSeens(ln))
-             ELSE [bad |-> {}, known |-> {}]
+             ELSE [bad |-> {}, obs |-> {}]
 
 (* G4 (bounded liveness, observed): the run was continued with a fair schedule (every keyper of
    ln.live iterates with an unlimited budget, blocks are closed, the main chain is at ln.mc);
    then no valid next keyper set is still waiting and no accepted config is still unstarted.
-   GOV1: a keyper whose outbox HEAD is a vote shuttermint can never accept (activation below /
-   index not above the newest accepted config) is cut off from shuttermint for ever, because
-   isRetrieable is constant TRUE; the clause is excused iff the keypers that are not cut off
-   are fewer than the threshold. *)
+   ENVIRONMENT ASSUMPTION: activation blocks of successive on-chain keyper sets are
+   non-decreasing (the contract enforces it).  Outside the assumption the clauses are not
+   asserted; what happens there is returned as an observation:
+   "HeadOfLineBlocked": a keyper whose outbox HEAD is a vote shuttermint can never accept
+   (activation below / index not above the newest accepted config) -- isRetrieable is constant
+   TRUE, so the vote is retried for ever and nothing behind it is ever sent: the keyper is mute. *)
 LiveQuorum(c, live) == Cardinality({i \in DOMAIN c.keypers : c.keypers[i] \in live}) >= c.thr
+
+EnvMonotone(sets) == \A i, j \in DOMAIN sets : sets[i].idx < sets[j].idx => sets[i].act <= sets[j].act
 
 StuckHead(ob, last) ==
     ob # <<>> /\ ob[1].k = "vote" /\ ob[1].cfg # Bare(last) /\
     (ob[1].cfg.act < last.act \/ ob[1].cfg.idx <= last.idx)
 FinLast(ln) == ln.configs[Len(ln.configs)]
-FinUnstuck(ln) == {a \in ToSet(ln.live) : ~StuckHead(ln.kps[a].outbox, FinLast(ln))}
+FinStuck(ln) == {a \in ToSet(ln.live) : StuckHead(ln.kps[a].outbox, FinLast(ln))}
 
 G4Waiting(ln, live) ==
     \E i \in DOMAIN ln.gsets :
@@ -111,11 +115,15 @@ G4Unstarted(ln, live) ==
        i > 1 /\ ln.mc > ln.configs[i].act /\ LiveQuorum(ln.configs[i - 1], live) /\ ~ln.configs[i].started
 
 G4(g, ln) ==
-    IF ln.k # "fin" THEN [bad |-> {}, known |-> {}]
-    ELSE [bad |-> (IF G4Waiting(ln, FinUnstuck(ln)) THEN {"G4_Accepted"} ELSE {}) \cup
-                  (IF G4Unstarted(ln, FinUnstuck(ln)) THEN {"G4_Started"} ELSE {}),
-          known |-> (IF G4Waiting(ln, ToSet(ln.live)) /\ ~G4Waiting(ln, FinUnstuck(ln)) THEN {"G4_Accepted@GOV1"} ELSE {}) \cup
-                    (IF G4Unstarted(ln, ToSet(ln.live)) /\ ~G4Unstarted(ln, FinUnstuck(ln)) THEN {"G4_Started@GOV1"} ELSE {})]
+    IF ln.k # "fin" THEN [bad |-> {}, obs |-> {}]
+    ELSE LET live == ToSet(ln.live)
+             env  == EnvMonotone(ln.gsets)
+             w    == G4Waiting(ln, live)
+             u    == G4Unstarted(ln, live)
+         IN [bad |-> (IF env /\ w THEN {"G4_Accepted"} ELSE {}) \cup (IF env /\ u THEN {"G4_Started"} ELSE {}),
+             obs |-> (IF ~env /\ w THEN {"G4_Accepted_OutsideEnv"} ELSE {}) \cup
+                     (IF ~env /\ u THEN {"G4_Started_OutsideEnv"} ELSE {}) \cup
+                     (IF FinStuck(ln) # {} THEN {"HeadOfLineBlocked"} ELSE {})]
 
 GGhostNext(g, ln) ==
     IF ln.k = "iter"
@@ -131,10 +139,10 @@ GHolds(name, g, ln) ==
       [] name = "G2_Structural"      -> G2_Structural(g, ln)
       [] name = "G2_NoStructError"   -> G2_NoStructError(g, ln)
 
-(* monitors that are false on the observed line and not explained by a known finding *)
+(* monitors that are false on the observed line *)
 GFailed(g, ln) == {m \in GMonitorNames : ~GHolds(m, g, ln)} \cup G3(g, ln).bad \cup G4(g, ln).bad
-(* failures explained by a known finding, tagged "<monitor>@<finding>" *)
-GKnown(g, ln) == G3(g, ln).known \cup G4(g, ln).known
+(* observations: things worth reporting that are not failures of G1-G4 as stated *)
+GObs(g, ln) == G3(g, ln).obs \cup G4(g, ln).obs
 
 ----------------------------------------------------------------------------
 (* G5 on the composed MODEL: the C11 monitors of ShuttermintProps on every application call an
